@@ -58,7 +58,7 @@ func (x *ctx) replay(h *llh.H, fl *llh.Failure, f fn, n, m, w int, v in, want ou
 		return out
 	}
 	av, bvs := vals(v.a), vals(v.b)
-	nc := &llh.NativeCall{Fn: "c17_" + f.name, DDPSrc: x.src, Opt: 0, InitAll: true, Name: "c17"}
+	nc := &llh.NativeCall{Fn: "c17_" + f.name, DDPSrc: x.src, Opt: x.opt, InitAll: true, Name: "c17"}
 	switch f.ret {
 	case "zahl":
 		nc.RetC = "ddpint"
